@@ -323,7 +323,19 @@ pub fn sanitize(cfg: &mut Config) {
 
 /// "Wild" swarm: one dimension of a configuration far outside the usual range (large but valid parameters).
 pub fn widen(rng: &mut Rng, cfg: &mut Config) {
-    match rng.below(8) {
+    match rng.below(9) {
+        8 => {
+            // deep read positions on a fine grid: fixed-output sinc at a very low ratio (position * factor >= 2^31)
+            if cfg.kind.is_sinc() {
+                cfg.oversampling = *rng.pick(&[2048usize, 4096, 16384]);
+                cfg.sinc_len = 8;
+                cfg.ratio = rng.log_uniform(1.0 / 512.0, 1.0 / 32.0);
+                cfg.max_rel = cfg.max_rel.min(1.5);
+                cfg.chunk = rng.usize_in(1024, 4096);
+                cfg.channels = 1;
+                cfg.mask = None;
+            }
+        }
         7 => {
             // sinc tables of millions of points (sizes in bytes then differ between f32 and f64)
             if cfg.kind.is_sinc() && cfg.kernel == Kernel::Auto {
